@@ -335,7 +335,8 @@ class RaggedArray(IndexableArray, np.lib.mixins.NDArrayOperatorsMixin):
             if isinstance(input, (Number, np.generic)) or (isinstance(input, np.ndarray) and input.ndim == 0):
                 datas.append(input)
             elif isinstance(input, np.ndarray) or isinstance(input, list):
-                broadcasted = self._broadcast_rows(input, dtype=result_type)
+                # the column keeps its own element type: numpy promotes inside the ufunc (int64 and uint64 compare exactly)
+                broadcasted = self._broadcast_rows(input, dtype=input.dtype)
                 datas.append(broadcasted.ravel())
             elif isinstance(input, RaggedArray):
                 datas.append(input.ravel())
